@@ -37,7 +37,7 @@ def main():
         cases = [c0 if c0.get('kind') in ('seq', 'probe', 'nav', 'big', 'bad', 'size') else
                  {'kind': 'seq', 'A': c0['A'], 'steps': [c0, c0], 'gen': 'replay', **({'only': c0['only']} if c0.get('only') else {})}]
     else:      # no replay, or a `no-failing-input-found` replay: run the whole tier
-        cases = [dict(c, only='floyd') for c in dc.gen_dist_cases(ck.rs, ck.tier) if c['kind'] in ('bin', 'wei', 'log', 'flt', 'seq', 'size') or (c['kind'] == 'bad' and c.get('what') == 'self-loops')]
+        cases = [dict(c, only='floyd') for c in dc.gen_dist_cases(ck.rs, ck.tier) if c['kind'] in ('bin', 'wei', 'log', 'flt', 'abs', 'seq', 'size') or (c['kind'] == 'bad' and c.get('what') == 'self-loops')]
         cases += dc.gen_nav_cases(ck.rs, ck.tier)
         npr = 500 if ck.tier == 'thorough' else 50
         pr = ['retrieve', 'navigation_wu', 'floyd_none', 'floyd_inv', 'floyd_log', 'edit_floyd', 'pair_wei_floyd']
